@@ -537,3 +537,9 @@ fn add_execution_time_header(
         Err(e) => Err(e),
     }
 }
+
+/// Verification hook: HTTP status the front end derives from a handler's output bytes.
+#[cfg(sneldb_verif)]
+pub fn verif_extract_http_status(output: &[u8]) -> u16 {
+    extract_http_status_from_response(output).as_u16()
+}
